@@ -40,6 +40,9 @@ type Req struct {
 
 type Case struct {
 	Reqs []Req `json:"requests"`
+	// ProxySecret != "": the server is configured with a proxy secret; a request without it (or with a
+	// wrong one) is refused, whatever else it carries
+	ProxySecret string `json:"proxySecret,omitempty"`
 }
 
 const plan = "BASIC"
@@ -674,6 +677,26 @@ func genCase(t *rapid.T) Case {
 	for i := 0; i < n; i++ {
 		c.Reqs = append(c.Reqs, genReq(t, fmt.Sprintf("r%d", i), &intact))
 	}
+	if rapid.IntRange(0, 7).Draw(t, "secured") == 0 {
+		// a deployment behind a proxy: every request has to carry the proxy secret; one in three does not
+		c.ProxySecret = "s3cret-of-the-proxy"
+		for i := range c.Reqs {
+			hd := map[string]string{}
+			for k, v := range c.Reqs[i].Headers {
+				hd[k] = v
+			}
+			switch rapid.IntRange(0, 5).Draw(t, fmt.Sprintf("secret%d", i)) {
+			case 0:
+				c.Reqs[i].MustReject = "missing proxy secret"
+			case 1:
+				hd["X-Proxy-Secret"] = rapid.SampledFrom([]string{"", "s3cret", "s3cret-of-the-proxY", "S3CRET-OF-THE-PROXY", "*"}).Draw(t, fmt.Sprintf("wrongSecret%d", i))
+				c.Reqs[i].MustReject = "wrong proxy secret"
+			default:
+				hd["X-Proxy-Secret"] = c.ProxySecret
+			}
+			c.Reqs[i].Headers = hd
+		}
+	}
 	return c
 }
 
@@ -735,7 +758,7 @@ type server struct {
 	h    http.Handler
 }
 
-func newServer(dir string) (*server, error) {
+func newServer(dir string, proxySecret string) (*server, error) {
 	me := drive.NodeSpec{Host: "127.0.1.1", Port: 1}
 	node, err := drive.NewClusterNode(filepath.Join(dir, "node"), me, []string{me.Name()}, drive.ClusterOpts{ShardTimeout: 5, MaxShardPointCount: 1000}, false)
 	if err != nil {
@@ -744,9 +767,12 @@ func newServer(dir string) (*server, error) {
 	// two plans: collections are created under BASIC; a request names its own plan, whose limits apply
 	plans := map[string]models.UserPlan{plan: {Name: plan, MaxCollections: 3, MaxCollectionPointCount: 12, MaxPointSize: 500},
 		"SMALL": {Name: "SMALL", MaxCollections: 3, MaxCollectionPointCount: 12, MaxPointSize: 150}}
-	s := &server{node: node, h: drive.Router(node, plans)}
+	s := &server{node: node, h: drive.SecuredRouter(node, plans, proxySecret)}
 	// baseline population through the API itself
 	hd := drive.JSONHeaders("alice", plan)
+	if proxySecret != "" {
+		hd["X-Proxy-Secret"] = proxySecret
+	}
 	if r := drive.Call(s.h, "POST", "/v2/collections", hd, map[string]any{"id": "colv2", "indexSchema": fullSchema()}); r.Status != 200 {
 		return nil, fmt.Errorf("baseline create: %d %s", r.Status, r.Body)
 	}
@@ -827,9 +853,12 @@ func execCase(c Case) (res vt.Result) {
 	rec := vt.R()
 	dir, cleanup := drive.CaseDir()
 	defer cleanup()
-	s, err := newServer(dir)
+	s, err := newServer(dir, c.ProxySecret)
 	if err != nil {
 		return vt.Result{Err: err}
+	}
+	if c.ProxySecret != "" {
+		rec.Count("cases_behind_a_proxy_secret", 1)
 	}
 	defer func() {
 		s.node.VerifShardManager().VerifUnloadAll()
